@@ -96,6 +96,8 @@ enum Fault {
     Dup(usize),
     Swap(usize, usize),
     Subst(usize, usize),
+    /// the i-th entry is reported for a signal of the same name and type but one more bit
+    Widen(usize),
 }
 
 #[derive(Clone, Debug, Default)]
@@ -196,6 +198,7 @@ fn read_cases(text: &str) -> Vec<Case> {
                     "dup" => Fault::Dup(a(0)),
                     "swap" => Fault::Swap(a(0), a(1)),
                     "subst" => Fault::Subst(a(0), a(1)),
+                    "widen" => Fault::Widen(a(0)),
                     other => panic!("bad fault {other}"),
                 };
                 cur.faults.push((k, fault));
@@ -235,6 +238,8 @@ struct Shared {
 type Sh = std::rc::Rc<std::cell::RefCell<Shared>>;
 
 struct Script {
+    /// number of signals of the test; `sigs` holds them followed by their widened copies
+    n: usize,
     sigs: Vec<Signal>,
     layout: Vec<usize>,
     table: Vec<Vec<OutputValue>>,
@@ -247,8 +252,17 @@ struct Script {
 
 impl Script {
     fn new(c: &Case, sigs: &[Signal], sh: Sh) -> Self {
+        // the signal list, followed by a copy of every signal with one more bit (same name, same type): what a driver
+        // reports when its own description of a pin differs from the test's (fault `widen`)
+        let mut all = sigs.to_vec();
+        for s in sigs {
+            let mut w = s.clone();
+            w.bits += 1;
+            all.push(w);
+        }
         Script {
-            sigs: sigs.to_vec(),
+            n: sigs.len(),
+            sigs: all,
             layout: c.layout.clone(),
             table: c.table.clone(),
             echo: c.echo,
@@ -284,7 +298,7 @@ impl Script {
         // entries: (index into self.sigs, value)
         let mut outs: Vec<(usize, OutputValue)> = vec![];
         for (j, &si) in self.layout.iter().enumerate() {
-            if si >= self.sigs.len() {
+            if si >= self.n {
                 continue;
             }
             let base = if self.table.is_empty() {
@@ -308,7 +322,7 @@ impl Script {
                 }
             }
             Some(Fault::Add(s)) => {
-                if s < self.sigs.len() {
+                if s < self.n {
                     outs.push((s, OutputValue::Value(7)));
                 }
             }
@@ -324,8 +338,13 @@ impl Script {
                 }
             }
             Some(Fault::Subst(i, s)) => {
-                if i < outs.len() && s < self.sigs.len() {
+                if i < outs.len() && s < self.n {
                     outs[i].0 = s;
+                }
+            }
+            Some(Fault::Widen(i)) => {
+                if i < outs.len() && outs[i].0 < self.n {
+                    outs[i].0 += self.n;
                 }
             }
             _ => {}
